@@ -44,3 +44,16 @@ if __name__ == "__main__":
         del args[i:i + 2]
     config = args[0] if args else "default"
     census(crates, sys.argv[2], config=config, emit=emit)
+
+
+def dump_calls(crates, fn_rx, config="default", filt=None):
+    from .mir import sym_str
+    P = Program(crates=crates, config=config)
+    for f in P.find(fn_rx):
+        print("==", f.path)
+        for bi, t in f.calls():
+            name = t.get("f") or t.get("g") or "<indirect>"
+            if filt and not re.search(filt, name):
+                continue
+            print("  bb%d L%s %s(%s)" % (bi, t["s"][0], panic.strip_generics(name), "; ".join(sym_str(f.sym_operand(a), 200) for a in t["args"])))
+    return P
